@@ -2,11 +2,13 @@ package clientworld
 
 import (
 	"bytes"
+	"crypto/sha256"
 	"encoding/json"
 	"errors"
 	"fmt"
 	"net/http"
 	"strings"
+	"time"
 
 	ct "github.com/google/certificate-transparency-go"
 	"github.com/google/certificate-transparency-go/jsonclient"
@@ -57,7 +59,8 @@ func sameList(a, b [][]byte) bool {
 func methodName(kind string) string {
 	return map[string]string{"get-sth": "GetSTH", "add-chain": "AddChain", "add-pre-chain": "AddPreChain", "get-sth-consistency": "GetSTHConsistency",
 		"get-proof-by-hash": "GetProofByHash", "get-raw-entries": "GetRawEntries", "get-entries": "GetEntries", "get-roots": "GetAcceptedRoots",
-		"get-entry-and-proof": "GetEntryAndProof", "decode": "LogEntryFromLeaf"}[kind]
+		"get-entry-and-proof": "GetEntryAndProof", "decode": "LogEntryFromLeaf",
+		"t-add-chain": "TemporalLogClient.AddChain", "t-add-pre-chain": "TemporalLogClient.AddPreChain"}[kind]
 }
 
 func (op *c12Op) resultZero() bool {
@@ -68,6 +71,11 @@ func (op *c12Op) resultZero() bool {
 func mutClass(kind string) string {
 	if strings.HasPrefix(kind, "status.") {
 		return "status"
+	}
+	for _, p := range []string{"sth.sig.althash", "sct.sig.althash"} {
+		if strings.HasPrefix(kind, p) {
+			return p
+		}
 	}
 	if strings.HasPrefix(kind, "redirect.") {
 		return "redirect"
@@ -217,6 +225,13 @@ func (w *c12World) judge(op *c12Op) {
 	crossed := lastCall != nil && !strings.HasSuffix(lastCall.Path, "/"+c12Path[op.Kind])
 	ended := op.ctx.Err() != nil
 	received := last != nil && !last.NetErr && !last.isRedirect()
+	if op.temporal() {
+		na := op.sub.leaf.Spec.NotAfter
+		s.Probe(fmt.Sprintf("shard.expected=%d.contacted=%v", w.expectedShard(na), lastCall != nil))
+		if na.Equal(w.shardEdge) || na.Equal(w.shardEdge.Add(-time.Second)) {
+			s.Probe("shard.at-the-edge")
+		}
+	}
 	lastKind := "none"
 	if last != nil {
 		lastKind = mutClass(last.Kind)
@@ -232,7 +247,7 @@ func (w *c12World) judge(op *c12Op) {
 			s.Probe("err.ctx")
 			return // the retry loop ran into the caller's deadline (C13 territory)
 		}
-		if received && !conv {
+		if received && !conv && !last.CloseErr { // (a body whose Close failed: the transport failed after the last byte - not judged)
 			var re jsonclient.RspError
 			switch {
 			case !errors.As(op.Err, &re):
@@ -255,7 +270,7 @@ func (w *c12World) judge(op *c12Op) {
 				s.Probe("trunc.mutated.refused")
 			}
 		}
-		if received && last.Honest && last.Status == 200 && !conv && !crossed && !(op.trunc != "" && op.Kind == "add-pre-chain") {
+		if received && last.Honest && last.Status == 200 && !conv && !crossed && (op.trunc == "" || op.trunc == "cert-alone") {
 			s.Violate("harness", "c12.correct-answer-refused|"+meth, "%s: %s refused the reference log's correct answer: %v (body %s)", op.Party, meth, op.Err, last.Body)
 		}
 		return
@@ -282,7 +297,9 @@ func (w *c12World) judge(op *c12Op) {
 	differs := func(what string) {
 		s.Violate("c12.result-differs", meth+"|"+lastKind, "%s: %s returned success but %s differs from the served body %q", op.Party, meth, what, clipBytes(body, 300))
 	}
-	pub := w.logKey.Priv.Public()
+	key := w.keyFor(lastCall.Path) // the key the contacted (shard) client was configured with
+	pub := key.Priv.Public()
+	wantID := sha256.Sum256(key.SPKI)
 	switch op.Kind {
 	case "get-sth":
 		sth := op.STH
@@ -295,19 +312,19 @@ func (w *c12World) judge(op *c12Op) {
 			return
 		}
 		in := oracle.STHSignatureInput(sth.Timestamp, sth.TreeSize, sth.SHA256RootHash[:])
-		if err := oracle.VerifyDS(pub, in, dsOf(sth.TreeHeadSignature)); err != nil {
+		if err := verifyDSAny(pub, in, dsOf(sth.TreeHeadSignature)); err != nil {
 			s.Violate("c12.sth-unverified", meth+"|"+lastKind, "%s: returned STH (size %d ts %d root %x) does not verify under the configured key: %v", op.Party, sth.TreeSize, sth.Timestamp, sth.SHA256RootHash, err)
 			return
 		}
 		s.Probe("verified.sth")
-	case "add-chain", "add-pre-chain":
+	case "add-chain", "add-pre-chain", "t-add-chain", "t-add-pre-chain":
 		sct := op.SCT
 		if sct == nil {
 			s.Violate("c12.nil-result", meth, "%s: nil SCT with nil error", op.Party)
 			return
 		}
-		if sct.LogID.KeyID != w.logID {
-			s.Violate("c12.sct-log-id", meth, "%s: returned SCT carries log id %x, the configured key hashes to %x (served: %s)", op.Party, sct.LogID.KeyID, w.logID, lastKind)
+		if sct.LogID.KeyID != wantID {
+			s.Violate("c12.sct-log-id", meth, "%s: returned SCT carries log id %x, the configured key hashes to %x (served: %s)", op.Party, sct.LogID.KeyID, wantID, lastKind)
 			return
 		}
 		if sct.SCTVersion != 0 {
@@ -315,7 +332,7 @@ func (w *c12World) judge(op *c12Op) {
 			return
 		}
 		in := oracle.SCTSignatureInput(sct.Timestamp, op.sub.entry, sct.Extensions)
-		if err := oracle.VerifyDS(pub, in, dsOf(sct.Signature)); err != nil {
+		if err := verifyDSAny(pub, in, dsOf(sct.Signature)); err != nil {
 			s.Violate("c12.sct-unverified", meth+"|"+lastKind, "%s: returned SCT (ts %d) does not verify for the submitted chain and entry type under the configured key: %v", op.Party, sct.Timestamp, err)
 			return
 		}
@@ -426,6 +443,12 @@ func (w *c12World) judgeDecode(op *c12Op) {
 		}
 	} else {
 		s.Probe("decode.raw.err")
+	}
+	if op.LE != nil && op.LEErr != nil {
+		s.Probe("decode.entry-with-nonfatal-error")
+	}
+	if strings.HasPrefix(op.mutNote, "edge:") {
+		s.Probe("decode." + strings.TrimSpace(op.mutNote) + map[bool]string{true: ".accepted", false: ".refused"}[op.RLE != nil])
 	}
 	if op.LE != nil {
 		s.Probe("decode.parsed.ok")
